@@ -152,7 +152,9 @@ func (s *sim) recv(sender uint16, topic string) {
 	if s.ref.started[topic] && s.epoch-s.lastSend[topic] > int(s.expire/sweep) {
 		// no send on this topic for longer than the expiry period: its started entry may have been
 		// released (late traffic of a finished session is then buffered and expires); either
-		// behaviour is fine, and nothing is expected of this message
+		// behaviour is fine, and nothing is expected of this message - but if it was buffered, the
+		// sender is charged with this topic from now on, so the upper bound must count it
+		poss[topic]++
 		s.topicOf[id] = topic
 		s.stale[id] = true
 		return
